@@ -24,6 +24,7 @@ import (
 	"encoding/json"
 	"errors"
 	"fmt"
+	"io"
 	"runtime"
 	"runtime/debug"
 	"sort"
@@ -54,6 +55,7 @@ type Run struct {
 	World string   // eachfeature: direct | basic | overlay | compact
 	Kinds []string // pbf: kind of every blob (h n w r p m); eachfeature: kind of every feature (p a A r)
 	Index []byte   // eachfeature, compact world: the index built by the parent process (compact.BuildInMemory)
+	Ev     string  // the error value the callback returns: new | wrapped | canceled | deadline | eof
 	Cancel int     // memread: 1 + index of the callback inside which the harness cancels the caller's context (0 = never)
 }
 
@@ -90,6 +92,9 @@ func (r *Run) opText() string {
 		}
 		extra = " w=" + r.World + " kinds=" + hx.List(r.Kinds) + " ph=" + hx.List(ph)
 	}
+	if r.Ev != "" && r.Ev != "new" {
+		extra += " ev=" + r.Ev
+	}
 	return fmt.Sprintf("run p=%s g=%d mp=%d sizes=%s fail=%s mode=%s multi=%d y=%d%s", r.Proto, r.G, r.MP, hx.List(sz), hx.List(fl), mode, multi, r.Y, extra)
 }
 
@@ -105,6 +110,28 @@ func (r *Run) phase(i int) int {
 // ---- the callback ---------------------------------------------------------------------------
 
 var errCallback = errors.New("callback failed")
+
+// errValue is the error a failing callback returns. Besides a fresh error: a wrapped one, and the sentinel values the
+// code under test (or the libraries under it) compares errors with — ReadPBFWithOptions filters `context.Canceled`
+// out of what readBlobs returned, readBlobs treats `io.EOF` as the end of the file, contexts end with
+// `context.DeadlineExceeded`. A callback may legitimately return any of them (e.g. the ctx.Err() of its own request).
+func errValue(kind string) error {
+	switch kind {
+	case "", "new":
+		return errCallback
+	case "wrapped":
+		return fmt.Errorf("callback: %w", errCallback)
+	case "canceled":
+		return context.Canceled
+	case "deadline":
+		return context.DeadlineExceeded
+	case "eof":
+		return io.EOF
+	}
+	panic("unknown error value " + kind)
+}
+
+var errKinds = []string{"new", "new", "wrapped", "canceled", "canceled", "deadline", "eof"}
 
 type recorder struct {
 	run    *Run
@@ -167,7 +194,7 @@ func (rec *recorder) callIdx(k, j, goroutine, tagged int) (int, error) {
 		time.Sleep(200 * time.Microsecond)
 	}
 	if fail {
-		return idx, errCallback
+		return idx, errValue(rec.run.Ev)
 	}
 	return idx, nil
 }
@@ -178,6 +205,13 @@ func (rec *recorder) answer(err error) string {
 	out := "nil"
 	if err != nil {
 		out = "err"
+		base := errValue(rec.run.Ev)
+		if rec.run.Ev == "wrapped" {
+			base = errCallback
+		}
+		if !errors.Is(err, base) { // an error, but not the one the callback returned
+			out = "err-other"
+		}
 	}
 	if rec.layout != "" {
 		return out + " " + hx.List(rec.events) + " lay=" + rec.layout
@@ -879,6 +913,7 @@ func genRun(seed uint64, no int) Run {
 		run.Y = r.Uint64() % 1000000
 		run.MP = mps[r.Intn(len(mps))]
 		run.Once = r.Chance(1, 4)
+		run.Ev = errKinds[r.Intn(len(errKinds))]
 		return run
 	}
 	run := Run{Proto: protos[r.Intn(len(protos))], G: gs[r.Intn(len(gs))], MP: mps[r.Intn(len(mps))], Y: r.Uint64() % 1000000}
@@ -890,6 +925,7 @@ func genRun(seed uint64, no int) Run {
 		run.Cancel = 1 + r.Intn(len(run.Sizes))
 	}
 	run.Multi = r.Bool()
+	run.Ev = errKinds[r.Intn(len(errKinds))]
 	run.Once = r.Chance(1, 3)
 	ps := positions(run.Sizes)
 	switch x := r.Intn(20); {
@@ -933,6 +969,14 @@ var corpus = []Run{
 	// once the feeders had left), with and without a failing callback
 	{Proto: "memread", G: 1, MP: 4, Sizes: []int{1, 1, 1, 1, 1, 1, 1, 1}, Cancel: 2},
 	{Proto: "memread", G: 2, MP: 4, Sizes: []int{1, 1, 1, 1, 1, 1, 1, 1, 1, 1, 1, 1}, Cancel: 1, Fail: [][2]int{{5, 0}}},
+	// a callback that returns one of the sentinel errors the implementation compares with: still an error to report
+	// (seeded change C28-4 filtered `context.Canceled` out of what ReadPBFWithOptions returns)
+	{Proto: "pbf", G: 1, MP: 4, Sizes: []int{0, 2, 2}, Fail: [][2]int{{1, 1}}, Ev: "canceled"},
+	{Proto: "pbf", G: 2, MP: 4, Sizes: []int{0, 2, 2}, Fail: [][2]int{{2, 0}}, Ev: "eof"},
+	{Proto: "memread", G: 2, MP: 4, Sizes: []int{1, 1, 1, 1}, Fail: [][2]int{{1, 0}}, Ev: "canceled"},
+	{Proto: "eachitem", G: 2, MP: 4, Sizes: []int{2, 1}, Fail: [][2]int{{0, 1}}, Ev: "deadline"},
+	{Proto: "eachfeature", G: 2, MP: 4, Sizes: []int{1, 1, 1}, Fail: [][2]int{{1, 0}}, Ev: "canceled"},
+	{Proto: "modtags", G: 2, MP: 4, Sizes: []int{1, 1, 1}, Fail: [][2]int{{1, 0}}, Ev: "canceled"},
 	// ReadPBF: a callback error on a RELATION (first / middle / last of its group, last blob; also in a mixed block)
 	// must be reported like one on a node or a way (seeded change C28-1 dropped it)
 	{Proto: "pbf", G: 1, MP: 4, Sizes: []int{0, 2, 3}, Kinds: []string{"h", "n", "r"}, Fail: [][2]int{{2, 0}}},
@@ -950,6 +994,13 @@ var corpus = []Run{
 
 func note(c *hx.Ctx, r *Run, ans string) {
 	c.Note("proto:" + r.Proto)
+	if len(r.Fail) > 0 {
+		ev := r.Ev
+		if ev == "" {
+			ev = "new"
+		}
+		c.Note("error-value:" + r.Proto + ":" + ev)
+	}
 	if r.Cancel > 0 {
 		c.Note("memread:caller-cancels")
 		if strings.Count(ans, "@") > r.Cancel-1 {
